@@ -28,6 +28,11 @@ type e2eCase struct {
 	Masters   int    `json:"masters"`
 	Threshold uint32 `json:"threshold"`
 	Ops       []eop  `json:"ops"`
+	// StartWithout: the service starts WITHOUT a compression section in its configuration; the section arrives with the first
+	// toggle (a configuration update at run time). Backend connections opened before that must behave like the others afterwards.
+	StartWithout bool `json:"start_without_section,omitempty"`
+	Replicas     int  `json:"replicas,omitempty"`      // replicas per master (reads may use other connections than writes)
+	Strategy     int  `json:"read_strategy,omitempty"` // 0 MASTER, 1 REPLICA, 2 BOTH
 }
 
 type e2eInfo struct{ compressedRedirected, compressedAfterToggle, compressedMulti, compressed bool }
@@ -35,14 +40,17 @@ type e2eInfo struct{ compressedRedirected, compressedAfterToggle, compressedMult
 var banned = map[string]bool{"append": true, "eval": true, "setbit": true, "getbit": true, "setrange": true, "getrange": true}
 
 func checkE2E(c e2eCase) (inf e2eInfo, v *verdict) {
-	w, err := sim.NewWorld(c.Masters, 0)
+	w, err := sim.NewWorld(c.Masters, c.Replicas)
 	if err != nil {
 		return inf, nil
 	}
 	defer w.Close()
 	w.AssignEven(w.Masters())
 	cps := &redispb.Compression{Enable: true, Algorithm: redispb.Compression_SNAPPY, Threshold: c.Threshold}
-	px, err := sim.StartProxy(sim.ProxyOpts{Seeds: w.AllAddrs(), Compression: cps})
+	if c.StartWithout {
+		cps = nil
+	}
+	px, err := sim.StartProxy(sim.ProxyOpts{Seeds: w.AllAddrs(), Compression: cps, ReadStrategy: redispb.ReadStrategy(c.Strategy)})
 	if err != nil {
 		return inf, &verdict{"proxy-start", err.Error()}
 	}
@@ -54,14 +62,14 @@ func checkE2E(c e2eCase) (inf e2eInfo, v *verdict) {
 	}
 	defer cl.Close()
 	model := ref.NewKeyspace()
-	enabled := true
+	enabled := !c.StartWithout
 	toggled := false
 	redirectArmed := false
 	for i, o := range c.Ops {
 		where := fmt.Sprintf("step %d", i)
 		switch o.Op {
 		case "toggle":
-			ncfg := sim.RedisConfig(sim.ProxyOpts{Compression: &redispb.Compression{Enable: o.Enable, Algorithm: redispb.Compression_SNAPPY, Threshold: c.Threshold}})
+			ncfg := sim.RedisConfig(sim.ProxyOpts{Compression: &redispb.Compression{Enable: o.Enable, Algorithm: redispb.Compression_SNAPPY, Threshold: c.Threshold}, ReadStrategy: redispb.ReadStrategy(c.Strategy)})
 			ncfg.Listener = px.Cfg.Listener
 			if err := px.P.OnSvcConfigUpdate(ncfg); err != nil {
 				return inf, &verdict{"config-update-rejected", err.Error()}
@@ -207,7 +215,10 @@ func genE2E(t *rapid.T) e2eCase {
 	if rapid.IntRange(0, 5).Draw(t, "bigthr") == 0 {
 		thr = rapid.IntRange(400, 20000).Draw(t, "thr2")
 	}
-	c := e2eCase{Masters: rapid.IntRange(1, 3).Draw(t, "masters"), Threshold: uint32(thr)}
+	c := e2eCase{Masters: rapid.IntRange(1, 3).Draw(t, "masters"), Threshold: uint32(thr), StartWithout: rapid.IntRange(0, 3).Draw(t, "startwithout") == 0}
+	if rapid.IntRange(0, 2).Draw(t, "replicas") == 0 {
+		c.Replicas, c.Strategy = 1, rapid.IntRange(0, 2).Draw(t, "strategy")
+	}
 	b := func(s string) []byte { return []byte(s) }
 	key := func() []byte { return b(fmt.Sprintf("k%d", rapid.IntRange(0, 5).Draw(t, "k"))) }
 	hkey := func() []byte { return b(fmt.Sprintf("h%d", rapid.IntRange(0, 3).Draw(t, "hk"))) }
